@@ -158,6 +158,26 @@ func c16LeafValidated(w *World, valid map[*ssa.Function]string, fn *ssa.Function
 					}
 				}
 				for _, al := range leaves {
+					// the helper itself validated, before the use, another of its parameters that is this very value at the call site
+					// (`resolve(name, path.Join(name, bin(name)))` validating `name`)
+					same := false
+					for q, pq := range fn.Params {
+						if ci.Common().Args[q] != al {
+							continue
+						}
+						qd := "param:" + pq.Name()
+						for vf, kind := range valid {
+							if kind == "err" && labelHas(g, "EQ(call:"+fnName(vf)+"("+qd+")#err,nil)") {
+								same = true
+							}
+							if kind == "bool" && labelHas(g, "T(call:"+fnName(vf)+"("+qd+"))") {
+								same = true
+							}
+						}
+					}
+					if same {
+						continue
+					}
 					if !c16LeafValidated(w, valid, F, ci, al, depth+1) {
 						return false
 					}
